@@ -64,6 +64,9 @@ var programs = []string{
 	"package main\nfunc main(a [2]uint3, b uint3) (uint3, bool) {\n\treturn a[0] ^ b, a[1] == b\n}\n",
 	"package main\ntype S struct {\n\tx uint4\n\ty bool\n\tz [2]uint2\n}\nfunc main(a S, b int4) (int4, []uint2) {\n\tif a.y {\n\t\treturn b, a.z[0:2]\n\t}\n\treturn int4(a.x), a.z[0:2]\n}\n",
 	"package main\nfunc main(a int3, b int3) (int3, int3) {\n\treturn a + b, a - b\n}\n",
+	// pointer-typed I/O: the compiler accepts it, so the writer may be handed such a circuit
+	"package main\nfunc main(a *uint8, b uint8) uint8 {\n\treturn b\n}\n",
+	"package main\ntype S struct {\n\tx uint8\n\tp *uint8\n}\nfunc main(a S, b uint8) uint8 {\n\treturn a.x + b\n}\n",
 }
 
 func buildCircuit(k cs) (*circuit.Circuit, error) {
